@@ -5,6 +5,9 @@ import RedisVerif.Props.C05
   C05 sub-driver (stateful): the connection-level transaction machine `Txn.step` and the
   executor-level machine `Txn.xstep`, both over the tiny concrete store `KV`.
 
+    G proto-flags <0|1>         → ok          which tree the model follows (harness/src/c05.rs
+                                              CODE_PROTO_ERROR_FLAGS): 1 = a protocol error inside
+                                              MULTI flags the transaction (`Txn.stepFixed`)
     NEW                         → ok          fresh connection + empty store
     RECONNECT                   → ok          the connection is dropped, a new one opened (store kept)
     C MULTI | DISCARD | UNWATCH → reply       input of the modelled connection
@@ -188,10 +191,13 @@ structure St where
   sht : ExTxn Nat KV.Cmd KV.Val
   shstore : KV.Store
   rstore : KV.Store
+  /-- which tree the connection-level machine follows: false = the current one, true = with the
+      proposed fix "a protocol error between MULTI and EXEC flags the transaction" -/
+  protoFlags : Bool
 
 def St.init : St :=
   { conn := ConnTxn.idle, store := [], xt := ExTxn.idle, xstore := [], sht := ExTxn.idle,
-    shstore := [], rstore := [] }
+    shstore := [], rstore := [], protoFlags := false }
 
 def showRReply : RReply KV.Rep → String
   | .ok => "+OK"
@@ -229,6 +235,7 @@ def step (st : St) (line : String) : St × String :=
   match tokens line with
   | ["NEW"] => ({ st with conn := ConnTxn.idle, store := [] }, "ok")
   | ["XNEW"] => ({ st with xt := ExTxn.idle, xstore := [] }, "ok")
+  | ["G", "proto-flags", v] => ({ st with protoFlags := v == "1" }, "ok")
   -- the modelled client's connection is closed and a new one opened: the connection-level state
   -- goes away with it, the store stays (`abandoned_txn_has_no_effect`)
   | ["RECONNECT"] => ({ st with conn := ConnTxn.idle }, "ok")
@@ -242,7 +249,7 @@ def step (st : St) (line : String) : St × String :=
   | "C" :: rest =>
     match (inputP.run rest) with
     | some ((inp, sc), []) =>
-      let r := Txn.step KV.backend sc st.conn st.store inp
+      let r := Txn.stepWith st.protoFlags KV.backend sc st.conn st.store inp
       ({ st with conn := r.1, store := r.2.1 }, showReply r.2.2)
     | _ => (st, "bad-op")
   | "F" :: rest =>
@@ -271,7 +278,12 @@ def step (st : St) (line : String) : St × String :=
     | _ => (st, "bad-op")
   | ["TBL", a, e, w, q, c] =>
     match a.toNat?, e.toNat?, w.toNat?, q.toNat?, iclsOf c with
-    | some a, some e, some w, some q, some c => (st, tblCell (a != 0) (e != 0) w q c)
+    | some a, some e, some w, some q, some c =>
+      -- with the proposed fix the row (inside MULTI, protocol error) is the row of an arity error
+      -- up to the error text
+      if st.protoFlags && a != 0 && c == .protoErr then
+        (st, (tblCell true (e != 0) w q .parseErr).replace "-parse" "-protocol")
+      else (st, tblCell (a != 0) (e != 0) w q c)
     | _, _, _, _, _ => (st, "bad-op")
   | "X" :: rest =>
     match (xinputP.run rest) with
